@@ -28,7 +28,12 @@ pub fn item(run: impl Runnable + 'static, bound: Option<u32>, note: &'static str
 /// Engine-A scenario sets.
 pub fn scenarios(prop: &str, tier: Tier) -> Option<Vec<Item>> {
     match prop {
-        "C06" | "C07" | "C08" => Some(chan::scenarios(prop, tier)),
+        "C07" => {
+            let mut v = chan::scenarios(prop, tier);
+            v.extend(iter::scenarios_c07(tier));
+            Some(v)
+        }
+        "C06" | "C08" => Some(chan::scenarios(prop, tier)),
         "C01" | "C02" | "C04" | "C18" => Some(reg::scenarios(prop, tier)),
         "C09" | "C10" | "C11" => Some(iter::scenarios(prop, tier)),
         "C03" => Some(c03::scenarios(tier)),
@@ -81,16 +86,16 @@ pub fn meta(prop: &str) -> PropMeta {
 /// Which violation classes (message prefixes) belong to which property.
 pub fn owns(prop: &str, class: &str) -> bool {
     let own: &[&str] = match prop {
-        "C06" => &["C06", "race"],
-        "C07" => &["C07", "race"],
+        "C06" => &["C06", "race", "uaf"],
+        "C07" => &["C07", "race", "uaf"],
         "C08" => &["C08", "C03", "livelock", "deadlock", "crash", "hung", "panic"],
-        "C01" => &["C01", "race"],
+        "C01" => &["C01", "race", "uaf"],
         "C02" => &["C02", "crash"],
         "C03" => &["C03", "alloc", "crash", "hung"],
-        "C04" => &["C04", "crash"],
+        "C04" => &["C04", "C04w", "crash"],
         "C18" => &["C18", "deadlock", "livelock", "hung", "panic"],
         "C09" => &["C09", "deadlock", "hung"],
-        "C10" => &["C10"],
+        "C10" => &["C10", "uaf"],
         "C11" => &["C11", "deadlock", "livelock", "hung"],
         _ => return class != "engine",
     };
@@ -290,6 +295,21 @@ pub fn check_a(prop: &str, tier: Tier, selftest: Value) -> i32 {
             }
         }
     }
+    // fork-based grid that belongs to this property (actions that end the process cannot run in a worker)
+    let mut grid_info = json!(null);
+    if only.is_none() {
+        if let Some(r) = crate::propsb::grid_for_a(prop, tier) {
+            grid_info = json!({"cells": r.evaluations, "distinct_outcomes": r.distinct, "rule": r.rule, "violations": r.violations.len()});
+            eprintln!("[{}] grid: {} cells, {} distinct outcomes, {} violations", prop, r.evaluations, r.distinct, r.violations.len());
+            for v in r.violations.iter().take(10) {
+                let path = crate::histex::write_replay_b(prop, &v.case, &v.message);
+                println!("VIOLATION property={} replay={}", prop, path);
+                eprintln!("  {}", v.message);
+                new_violations += 1;
+                exit = 1;
+            }
+        }
+    }
     if total.diverged > 0 && exit == 0 {
         eprintln!("MACHINERY FAILURE: {} executions diverged from their schedule prefix (state surviving between executions or uncontrolled nondeterminism); nothing is concluded", total.diverged);
         return 2;
@@ -327,6 +347,7 @@ pub fn check_a(prop: &str, tier: Tier, selftest: Value) -> i32 {
             "repo_dirty": dirty,
             "known_findings_hit": known_hits,
             "violations_of_other_properties_seen": foreign,
+            "fork_based_grid": grid_info,
         },
         "assumptions": m.assumptions,
         "wall_s": start.elapsed().as_secs_f64(),
